@@ -8,3 +8,4 @@ pub mod rwa;
 pub mod nft;
 pub mod policies;
 pub mod sa;
+pub mod identity;
